@@ -127,6 +127,10 @@ parts:
 		if newVal == lit.Value {
 			break
 		}
+		if dq.Dollar && strings.Contains(newVal, `\`) {
+			// $'...' would interpret the backslash as an escape sequence.
+			break
+		}
 		s.modified = true
 		wps[i] = &SglQuoted{
 			Left:   dq.Pos(),
